@@ -61,6 +61,12 @@ func (r *RelationTuple) FromString(s string) (*RelationTuple, error) {
 		if err != nil {
 			return nil, err
 		}
+		// A subject set that would be printed with a leading or trailing
+		// bracket can not be read back (the brackets are stripped), so it is
+		// malformed input, e.g., "a:b)#".
+		if printed := subSet.String(); printed != strings.Trim(printed, "()") {
+			return nil, errors.WithStack(ErrMalformedInput.WithDebug("subject set must not start or end with a bracket"))
+		}
 		r.SubjectSet = subSet
 	} else {
 		r.SubjectID = &subject
